@@ -1405,13 +1405,24 @@ class Norm:
             if b is not None and is_push(a, 1) and is_push(b, 2) and a[-1][0][:2] == ("guard", "for") and b[-1][0] == a[-1][0] \
                     and b[-1][1][:3] == ("guard", "if", True):
                 it = a[-1][0][2]
-                nl = _let("v1::Some($)", ("call", "loop::peek_next", [it]))
+                piece = a[3][0]
+                nls = [_let("v1::Some($)", ("call", "loop::peek_next", [it]))]
+                if it[0] == "call" and it[1] == "Iterator::enumerate" and len(it[2]) == 1:
+                    # "not the last one" by position:  i + 1 != len,  i + 1 < len,  i != len - 1,  i < len - 1
+                    en, it = it, it[2][0]
+                    idx, ln = ("field", ("elem", en), "0"), ("call", "slice::len", [it])
+                    one = ("lit", "1")
+                    nls = [("op", o, [("op", "+", [idx, one]), ln]) for o in ("!=", "<")] + [("op", o, [idx, ("op", "-", [ln, one])]) for o in ("!=", "<")]
+                    val = ("field", ("elem", en), "1")
+                    piece = rewrite(piece, lambda n: ("elem", it) if n == val else None)
+                    if any(x == ("elem", en) for x in subterms(piece)):
+                        nls = []
                 c = b[-1][1][3]
                 extra = None
-                if c[0] == "op" and c[1] == "||" and len(c[2]) == 2 and c[2][0] == nl and not any(x == ("elem", it) for x in subterms(c[2][1])):
-                    c, extra = nl, c[2][1]
-                if c == nl and not any(x[0] == "call" and x[1] == "loop::peek_next" for x in subterms(a[3][0])):
-                    out.append(("mutcall", "String::push_str", "", [("call", "slice::join", [self._collected(it, a[3][0], d), b[3][0]])], []))
+                if c[0] == "op" and c[1] == "||" and len(c[2]) == 2 and c[2][0] in nls and not any(x[0] == "elem" for x in subterms(c[2][1])):
+                    c, extra = c[2][0], c[2][1]
+                if c in nls and not any(x[0] == "call" and x[1] == "loop::peek_next" for x in subterms(piece)):
+                    out.append(("mutcall", "String::push_str", "", [("call", "slice::join", [self._collected(it, piece, d), b[3][0]])], []))
                     if extra is not None:
                         nonempty = extra[0] == "op" and extra[1] == "==" and extra[2][0][0] == "call" and extra[2][0][1] == "slice::len" \
                             and extra[2][1][0] == "lit" and str(extra[2][1][1]).isdigit() and int(extra[2][1][1]) >= 1
